@@ -654,6 +654,26 @@ pub fn decoder_sweep(tier: Tier, rep: &mut Report) {
     for (_, bytes) in super::c13::rejections() {
         inputs.push(bytes);
     }
+    // text fields with a multi-byte character at every offset (length caps / cuts inside a character)
+    let mut text_n = 0u64;
+    {
+        let ks: Vec<usize> = (0..=300).chain(500..=520).chain(1015..=1030).collect();
+        for ch in ["\u{e9}", "\u{20ac}", "\u{1F40E}"] {
+            for &k in &ks {
+                let mut text = "a".repeat(k);
+                text.push_str(ch);
+                text.push_str("zz");
+                inputs.push(Val::dict(vec![("t", Val::s("aa")), ("y", Val::s("e")), ("e", Val::List(vec![Val::Int(201), Val::s(&text)]))]).canon().encode());
+                text_n += 1;
+                if k <= 64 {
+                    inputs.push(Val::dict(vec![("t", Val::s("aa")), ("y", Val::s("q")), ("q", Val::s(&text)), ("a", Val::dict(vec![("id", Val::b(&[b'i'; 20]))]))]).canon().encode());
+                    inputs.push(Val::dict(vec![("t", Val::s("aa")), ("y", Val::s("r")), ("v", Val::s(&text)), ("r", Val::dict(vec![("id", Val::b(&[b'i'; 20]))]))]).canon().encode());
+                    text_n += 2;
+                }
+            }
+        }
+    }
+    rep.set("text_boundary_inputs_generated", text_n);
     let nest = nesting_inputs(tier.pick(7, 1));
     let nest_n = nest.len();
     inputs.extend(nest);
@@ -742,6 +762,15 @@ pub fn node_records(maxlen: usize) -> Vec<Vec<(u8, usize)>> {
     // sequences of (source index, input index)
     let n = node_inputs().len();
     let mut out: Vec<Vec<(u8, usize)>> = vec![];
+    // source 2 is an address no reply can be sent to (UDP source port 0: send_to fails)
+    for a in 0..n {
+        out.push(vec![(2, a)]);
+        if maxlen >= 2 {
+            for b in 0..n {
+                out.push(vec![(2, a), (1, b)]);
+            }
+        }
+    }
     for a in 0..n {
         for sa in 0..2u8 {
             out.push(vec![(sa, a)]);
@@ -788,8 +817,11 @@ fn run_node_record(seq: &[(u8, usize)], inputs: &[(String, Vec<u8>)]) -> Option<
         }
     }
     let mut t = b.ready_ms;
+    let unreachable: std::net::SocketAddr = "10.9.0.3:0".parse().unwrap();
+    b.sc.fail_dst = vec![unreachable];
     for (src, i) in seq {
-        b.sc.actions.push((When::At(t), Action::Inject { from: single::client_addr(*src as usize), to: node, bytes: inputs[*i].1.clone(), tag: String::new() }));
+        let from = if *src == 2 { unreachable } else { single::client_addr(*src as usize) };
+        b.sc.actions.push((When::At(t), Action::Inject { from, to: node, bytes: inputs[*i].1.clone(), tag: String::new() }));
         t += 10;
     }
     t += 100;
